@@ -152,7 +152,9 @@ class Maximizer(FormulaStep):
         """
         val2 = eval_stack.pop()
         val1 = eval_stack.pop()
-        res = max(val1, val2)
+        # `max` returns its first argument when the second one is NaN, so a
+        # missing value has to be propagated explicitly.
+        res = math.nan if math.isnan(val1) or math.isnan(val2) else max(val1, val2)
         eval_stack.append(res)
 
 
@@ -175,7 +177,9 @@ class Minimizer(FormulaStep):
         """
         val2 = eval_stack.pop()
         val1 = eval_stack.pop()
-        res = min(val1, val2)
+        # `min` returns its first argument when the second one is NaN, so a
+        # missing value has to be propagated explicitly.
+        res = math.nan if math.isnan(val1) or math.isnan(val2) else min(val1, val2)
         eval_stack.append(res)
 
 
